@@ -56,28 +56,37 @@ def run(chk):
 
     # 2. complete graph with the real archetype code, small N
     for n in bfs_sizes:
+        # TLC's own graph of the shipped spec first: its size bounds the exploration of the Go's graph
+        cfg = "plain%d.cfg" % n
+        open(os.path.join(work, cfg), "w").write("CONSTANTS\n defaultInitValue = defaultInitValue\n NumClients = %d\nINIT Init\nNEXT Next\nCHECK_DEADLOCK FALSE\nINVARIANT Safety\n" % n)
+        dot = os.path.join(work, "g%d.dot" % n)
+        r2 = V.tlc(work, "locksvc", cfg=cfg, workers=1, timeout=900, deadlock=False, dump=dot)
+        chk.add_tlc("locksvc.tla state graph NumClients=%d" % n, r2)
+        ns, ne = T.dot_counts(dot) if r2.ok else (0, 0)
+        cap = 3 * ns + 500 if ns else 20000
         out = os.path.join(chk.tmp, "bfs%d.ndjson" % n)
-        rc, o = V.run([drv, "-system", "locksvc", "-n", str(n), "-policy", "bfs", "-max-steps", "200000", "-out", out], timeout=1200)
+        rc, o = V.run([drv, "-system", "locksvc", "-n", str(n), "-policy", "bfs", "-max-steps", str(cap), "-out", out], timeout=1200)
         if rc != 0:
             raise V.Inconclusive("sysdrv bfs failed: " + o[-2000:])
         g = T.load_graph(out)
         for e in g["errors"]:
             chk.violation("C15:go-error:%s" % e.get("label"), "generated archetype failed from a reachable state: %s" % e.get("msg"), e)
         walks = T.graph_walks(g)
+        if sum(len(w) for w in walks) > 12000:   # a graph far larger than the spec's: judge a bounded part of it
+            tot, keep = 0, []
+            for w in walks:
+                if tot + len(w) > 12000:
+                    break
+                keep.append(w); tot += len(w)
+            chk.drift.append({"what": "graph n=%d" % n, "note": "Go graph truncated for validation", "walks": len(walks), "kept": len(keep)})
+            walks = keep
         res = T.validate_runs(work, "LockOrder", variables, walks, CONST(n), inv, props, chunks=8, timeout=1500, **kw)
         chk.states += res["states"]; chk.transitions += res["transitions"]; chk.traces += res["accepted"]
         for e in res["errors"]:
             chk.inconclusive.append("trace validation (bfs n=%d): %s" % (n, e[:600]))
         report(res["rejected"], walks, "graph n=%d" % n)
-        # completeness: TLC's own graph of the shipped spec has the same number of states and edges
-        cfg = "plain%d.cfg" % n
-        open(os.path.join(work, cfg), "w").write("CONSTANTS\n defaultInitValue = defaultInitValue\n NumClients = %d\nINIT Init\nNEXT Next\nCHECK_DEADLOCK FALSE\nINVARIANT Safety\n" % n)
-        dot = os.path.join(work, "g%d.dot" % n)
-        r2 = V.tlc(work, "locksvc", cfg=cfg, workers=1, timeout=900, deadlock=False, dump=dot)
-        chk.add_tlc("locksvc.tla state graph NumClients=%d" % n, r2)
-        ns, ne = T.dot_counts(dot)
         gs, ge = g["summary"]["states"], g["summary"]["edges"]
-        chk.notes["graph_n%d" % n] = {"tlc_states": ns, "tlc_edges": ne, "go_states": gs, "go_edges": ge, "walks": len(walks)}
+        chk.notes["graph_n%d" % n] = {"tlc_states": ns, "tlc_edges": ne, "go_states": gs, "go_edges": ge, "walks": len(walks), "go_complete": g["summary"].get("complete")}
         if (ns, ne) != (gs, ge):
             # conformance is C02's property; here a different graph only means the coverage claim "all reachable states" is about the Go's own graph
             chk.drift.append({"what": "graph n=%d" % n, "go": [gs, ge], "tlc": [ns, ne]})
